@@ -112,6 +112,10 @@ def execute(args):
             tmpdir = os.path.join(opt["tmp_on_disk"], "t%d_%d" % (os.getpid(), execute.counter))
             os.makedirs(tmpdir)
         tmp_env = tmpdir
+        if opt.get("tmp_form") == "non-utf8":
+            tmpdir = os.path.join(work, "scr\udce9tch")      # a directory whose name is not valid UTF-8 (byte 0xE9)
+            os.makedirs(tmpdir)
+            tmp_env = tmpdir
         if opt.get("tmp_form") == "nonexistent":
             tmp_env = os.path.join(work, "no", "such", "dir")
         elif opt.get("tmp_form") == "file":
